@@ -174,9 +174,10 @@ class StoreProbe(Q.QueueStorage):
         self.nwrite = 0
         self.fail_writes = set(fail_writes)
 
-    def _maybe_gate(self, where, name, args):
+    def _maybe_gate(self, where, name, args, force_name=False):
         lab = self.lab
-        if self.gate_p and name in self.GATED and not lab.draining and lab.rnd.random() < self.gate_p:
+        if self.gate_p and (force_name or name in self.GATED) and not lab.draining \
+                and lab.rnd.random() < self.gate_p:
             g = Gate('store', (where, name, args[0] if (args and name != 'write') else None))
             lab.parked.append(g)
             g.ev.wait()
@@ -246,6 +247,9 @@ class StoreProbe(Q.QueueStorage):
                 self.inprog -= 1
                 try:
                     yield entry
+                    # the listing of a yielding backend is a sequence of round trips: other
+                    # greenlets may run -- and finish whole attempts -- between two entries
+                    self._maybe_gate('mid', 'load', (entry[1],), force_name=True)
                 finally:
                     self.inprog += 1
         except BaseException as ex:
